@@ -47,6 +47,7 @@ class Observer:
         self.hist = dict(good=False, bad=False, server_error=False, welcome_error=False)
         self.at_closed = None      # snapshot taken when client `ci` notified `closed`
         self._stash = []
+        self._prev_st = self.c.states()
 
     def states(self):
         st = self.c.states()
@@ -81,6 +82,30 @@ class Observer:
         self.nlog = len(self.c.log)
         return " ".join(out)
 
+    def pake_kind(self, body):
+        """good: parses and SPAKE2 accepts the element; nofield: no usable `pake_v1` (not JSON, not an object, missing,
+        not a hex string); invalid: SPAKE2 rejects the element (wrong size, not in the group, our own reflected)"""
+        import copy
+        from spake2 import SPAKE2_Symmetric
+        try:
+            d = bytes_to_dict(body)
+            el = bytes.fromhex(d["pake_v1"])
+            if not isinstance(d["pake_v1"], str):
+                return "nofield"
+        except Exception:
+            return "nofield"
+        sp = getattr(self.c.boss._K._SK, "_sp", None)
+        try:
+            if sp is not None:
+                copy.deepcopy(sp).finish(el)
+            else:
+                t = SPAKE2_Symmetric(b"probe", idSymmetric=b"probe")
+                t.start()
+                t.finish(el)
+        except Exception:
+            return "invalid"
+        return "good"
+
     def classify_frame(self, payload):
         """server→client frame → model event line"""
         m = bytes_to_dict(payload)
@@ -95,18 +120,10 @@ class Observer:
             body = bytes.fromhex(m["body"])
             good = 1
             pk = "good"
+            honest = any(m["side"] == cl.side for cl in self.W.clients)
             if phase == "pake":
-                try:
-                    d = bytes_to_dict(body)
-                    if "pake_v1" not in d:
-                        pk = "nofield"
-                    else:
-                        el = bytes.fromhex(d["pake_v1"])
-                        mine = getattr(self.c.boss._K._SK, "_sp", None)
-                        if len(el) != 33 or (mine is not None and getattr(mine, "outbound_message", None) == el):
-                            pk = "invalid"
-                except Exception:
-                    pk = "invalid"
+                pk = self.pake_kind(body)
+                good = 1 if pk == "good" else 0
             else:
                 key = self.c.boss._R._key
                 if key is not None:
@@ -114,16 +131,13 @@ class Observer:
                         decrypt_data(derive_phase_key(key, m["side"], phase), body)
                     except CryptoError:
                         good = 0
+                else:
+                    # no key yet: whether it will open under the key the holder of our code computes is
+                    # all that can be said now — bytes posted by anybody else never will
+                    good = 1 if honest else 0
             if side == "theirs" and automat_state_of(self.c, "_M") == "S2B" and phase not in self.c.boss._M._processed:
-                if phase != "pake" and self.c.boss._R._key is not None:
-                    if good:
-                        self.hist["good"] = True
-                    else:
-                        self.hist["bad"] = True
-                elif phase != "pake":
-                    self._stash.append((m["side"], phase, body))   # waits in Order until the key exists
-                elif phase == "pake" and pk == "nofield":
-                    self.hist["bad"] = True
+                if phase != "pake" and self.c.boss._R._key is None and automat_state_of(self.c, "_O") == "S0_no_pake":
+                    self._stash.append((m["side"], phase, body, honest))   # waits in Order until the PAKE arrives
             return f"msg {side} {hx(phase)} {good} {pk}"
         return None
 
@@ -132,20 +146,24 @@ class Observer:
         before = self.c.states()
         self.expect.append(f"{outcome} | {self.states()} | {self.outputs()}")
         self._history(line, before)
-        key = self.c.boss._R._key
-        if key is not None and self._stash:
-            for (sd, ph, body) in self._stash:
-                try:
-                    decrypt_data(derive_phase_key(key, sd, ph), body)
-                    self.hist["good"] = True
-                except CryptoError:
-                    self.hist["bad"] = True
+        if self._stash and automat_state_of(self.c, "_O") != "S0_no_pake":
             self._stash = []
 
     def _history(self, line, st):
         """independent bookkeeping for the oracles (what the environment did to this client)"""
         c = self.c
         closing = st["B"] in ("S3_closing", "S4_closed")
+        prev = self._prev_st
+        self._prev_st = st
+        # something a participant posted was found unusable in this step (it may have been stashed or queued
+        # earlier): Receive scared, a PAKE without a usable pake_v1, or an element SPAKE2 rejected
+        scared_now = ((prev["SK"] != "S3_scared" and st["SK"] == "S3_scared")
+                      or (prev["R"] != "S3_scared" and st["R"] == "S3_scared")
+                      or (prev["SK"] != "S2_know_key" and st["SK"] == "S2_know_key" and c.boss._R._key is None))
+        if scared_now:
+            self.hist["bad"] = True
+        if prev["R"] != "S2_verified_key" and st["R"] == "S2_verified_key":
+            self.hist["good"] = True
         if line == "error" and not self._was_closing:
             self.hist["server_error"] = True
         if line == "welcome 1" and not self._was_closing:
@@ -156,12 +174,12 @@ class Observer:
                 self.hist["cause"] = "WelcomeError"
             elif line == "error":
                 self.hist["cause"] = "ServerError"
-            elif line.startswith("msg theirs"):
-                self.hist["cause"] = "WrongPasswordError"
             elif line == "close":
                 self.hist["cause"] = "happy" if self.hist["good"] and not self.hist["bad"] else "LonelyError"
             elif line in ("failinitial", "wsfail"):
                 self.hist["cause"] = "ServerConnectionError"
+            elif scared_now:
+                self.hist["cause"] = "WrongPasswordError"
             else:
                 self.hist["cause"] = "?" + line
         # … and a cause delivered to a wormhole that is not yet closing must make it start closing
@@ -229,8 +247,11 @@ class Observer:
             if line is not None:
                 if line.startswith("msg theirs 70616b65 ") and not had_key and c.boss._R._key is not None and stash:
                     # whether the messages queued in Order open under the key this PAKE produced
+                    # does the key this PAKE produced open what the holder of our code had queued?
                     ok = True
-                    for (sd, ph, body) in stash:
+                    for (sd, ph, body, honest) in stash:
+                        if not honest:
+                            continue
                         try:
                             decrypt_data(derive_phase_key(c.boss._R._key, sd, ph), body)
                         except CryptoError:
@@ -418,11 +439,22 @@ def guided(seed, n_ops, profile, welcome_error=None, finish_run=False):
                 # a third participant: the mailbox relays a message whose side is neither ours nor the peer's
                 # (a stranger's well-formed PAKE element, or bytes that open under no key), at any time
                 if (profile == "third" or rng.random() < 0.02) and c0.conn.sp._listening:
-                    ph3 = rng.choice(["pake", "pake", "version", "0", "1"])
+                    ph3 = rng.choice(["pake", "pake", "pake", "version", "version", "0", "1", "dilate-0", "foo"])
                     if ph3 == "pake":
                         from spake2 import SPAKE2_Symmetric
-                        el = SPAKE2_Symmetric(b"9-some-stranger", idSymmetric=b"x").start()
-                        body3 = dict_to_bytes({"pake_v1": el.hex()}) if rng.random() < 0.8 else b"{}"
+                        kind = rng.choice(["stranger", "stranger", "empty", "nonjson", "list", "int", "nonhex", "short",
+                                           "zero33", "notingroup", "reflect"])
+                        if kind == "stranger":
+                            el = SPAKE2_Symmetric(b"9-some-stranger", idSymmetric=b"x").start()
+                            body3 = dict_to_bytes({"pake_v1": el.hex()})
+                        elif kind == "reflect":
+                            mine = [m for m in W.sent[0] if m.get("type") == "add" and m.get("phase") == "pake"]
+                            body3 = bytes.fromhex(mine[0]["body"]) if mine else b"{}"
+                        else:
+                            body3 = {"empty": b"{}", "nonjson": b"\xff\xfe", "list": b"[]", "int": b'{"pake_v1": 5}',
+                                     "nonhex": b'{"pake_v1": "zz"}', "short": b'{"pake_v1": "00"}',
+                                     "zero33": dict_to_bytes({"pake_v1": "00" * 33}),
+                                     "notingroup": dict_to_bytes({"pake_v1": "53" + "ff" * 32})}[kind]
                     else:
                         body3 = bytes(rng.randrange(256) for _ in range(rng.choice([0, 24, 40, 60])))
                     choices += [["inject", 0, "7h1rd51de", ph3, body3.hex()]] * (3 if profile == "third" else 1)
